@@ -121,3 +121,15 @@ func vOnTuple(p []byte, pr []byte) bool {
 	return V.All(p[0]>>4 == 4, p[9] == 6, V.BytesEq(p[12:16], pr[16:20]), V.BytesEq(p[16:20], pr[12:16]),
 		V.BytesEq(p[20:22], pr[22:24]), V.BytesEq(p[22:24], pr[20:22]))
 }
+
+// vFreshDriver builds a real driver before the handshake (state nil) with symbolic endpoints.
+func vFreshDriver() (d *sackDriver, sink *N.Sink, src *N.Source, local netip.Addr, target netip.AddrPort) {
+	local = N.Addr4("local")
+	target = netip.AddrPortFrom(N.Addr4("target"), V.U16("dport"))
+	sink, src = &N.Sink{}, &N.Source{}
+	max := uint8(V.ParamInt("max", 30))
+	var err error
+	d, err = newSackDriver(vParams(target, 1, max, V.ParamInt("loosen", 1) == 1), local, sink, src)
+	V.Assert(err == nil, "setup/no-error")
+	return
+}
